@@ -154,6 +154,9 @@ const ruleHDL = "generated-hardware world: the same producer/consumer machines a
 func genCaseHDL(t *rapid.T) Case {
 	c := genCase(t)
 	c.Delays = nil
+	for i := range c.Consumers {
+		c.Consumers[i].Sicv3 = false // sicv3 consumers are judged in the simulator world only
+	}
 	return c
 }
 
